@@ -16,11 +16,13 @@ pub struct Flat {
     pub nonfinite: Vec<String>,
     /// energies are divided by this before scaling (unit of a scaled run)
     pub unit: f64,
+    /// prefixes of the per-step vectors (path without the step index)
+    pub tkeys: Vec<String>,
 }
 
 impl Flat {
     pub fn new() -> Flat {
-        Flat { m: BTreeMap::new(), nonfinite: vec![], unit: 1.0 }
+        Flat { m: BTreeMap::new(), nonfinite: vec![], unit: 1.0, tkeys: vec![] }
     }
     pub fn put(&mut self, path: String, v: f32, p: i32) {
         if !v.is_finite() {
@@ -34,7 +36,10 @@ impl Flat {
         let r = r.clamp(-2.0e9, 2.0e9);
         self.m.insert(path, r as i64);
     }
-    fn vec(&mut self, pre: &str, v: &[f32], p: i32) {
+    pub fn vec(&mut self, pre: &str, v: &[f32], p: i32) {
+        if !self.tkeys.iter().any(|k| k == pre) {
+            self.tkeys.push(pre.to_string());
+        }
         for (i, x) in v.iter().enumerate() {
             self.put(format!("{}.{}", pre, i + 1), *x, p);
         }
